@@ -715,7 +715,7 @@ class SymChecker:
             else:
                 self._add(Oblig(name, idx, 'undecided', 'z3', time.time() - t, 'solver model did not reproduce on the real code'))
             return
-        r2 = self._cvc5(s) if not thr or Budget.tier == 'thorough' else 'skipped'
+        r2 = self._cvc5(s, budget) if not thr or Budget.tier == 'thorough' else 'skipped'
         if r2 == 'unsat':
             self._add(Oblig(name, idx, 'proved', 'cvc5', time.time() - t))
         elif thr:
@@ -804,11 +804,11 @@ class SymChecker:
                 continue
         return None
 
-    def _cvc5(self, s):
+    def _cvc5(self, s, ms=None):
         if not Budget.use_cvc5:
             return 'skipped'
         try:
-            return _run_cvc5(s.to_smt2(), Budget.z3_ms)
+            return _run_cvc5(s.to_smt2(), ms or Budget.z3_ms)
         except Exception as e:      # noqa
             return 'error:%s' % type(e).__name__
 
